@@ -5,6 +5,7 @@ from ..lib import facts, mir, paths, witness
 from ..lib.mir import is_call, unref, path_str, is_adt_agg
 from . import common_derive as cd, common_registry as cr, c17
 
+EXHAUSTIVE = False  # contains a finite corpus of programs (witnesses / declarations)
 LEVEL = "other"
 EXPLANATION = (
     "(R20.1) Typestate soundness for ALL programs, decided from signatures and MIR of the builders: slots and markers are private; "
